@@ -348,7 +348,30 @@ impl C04 {
             },
             ..Default::default()
         };
-        let res = run_once(&c.u, &c.problem, &cfg);
+        // a quarter of the cases: the solver has been used before, for the first root
+        // requirements of this problem alone (whatever that solve learnt, cached or left
+        // behind must not make the next one panic or hang)
+        let used = sc.extra.get(1).map_or(false, |v| v % 4 == 1) && !c.problem.reqs.is_empty();
+        let res = if used {
+            let mut session = Session::new(c.u.clone(), &cfg.runtime, None);
+            session.provider().probe.set(cfg.sort_probe);
+            let keep = 1 + sc.extra.get(2).copied().unwrap_or(0) as usize % c.problem.reqs.len();
+            let warm = Problem {
+                reqs: c.problem.reqs.iter().take(keep).cloned().collect(),
+                constraints: vec![],
+                soft: vec![],
+            };
+            let first = session.solve(&warm, Cancel::Never, false, true);
+            rep.evaluations += 1;
+            rep.labels.push("second-solve-on-a-used-solver");
+            if abnormal(&first.outcome, Cancel::Never).is_some() {
+                first
+            } else {
+                session.solve(&c.problem, Cancel::Never, false, true)
+            }
+        } else {
+            run_once(&c.u, &c.problem, &cfg)
+        };
         rep.labels.push(res.outcome.kind());
         if self.reentrant {
             rep.labels.push("re-entrant-sort");
@@ -370,7 +393,7 @@ impl C04 {
     }
 }
 
-struct_property!(C04, "C04", "tape -> feature-interaction universe (hints x exclusions x locks x soft requirements x self-references x Unknown x missing x cycles) + problem + runtime; solve, Conflict::graph, graphviz (both simplify values) and display_user_friendly must not panic, must finish within the poll/step budget, async runs must not deadlock, and renderings stay under a quadratic bound in the conflict size; run in builds with and without debug assertions, tracing off. Non-trivial: case combines >=2 of {hint, exclusion, lock, soft, self-ref, Unknown, missing, union, favored} and is unsat or has >= 4 solvables in the solution. Distinct = distinct hash of case.");
+struct_property!(C04, "C04", "tape -> feature-interaction universe (hints x exclusions x locks x soft requirements x self-references x Unknown x missing x cycles) + problem + runtime; solve, Conflict::graph, graphviz (both simplify values) and display_user_friendly must not panic, must finish within the poll/step budget, async runs must not deadlock, and renderings stay under a quadratic bound in the conflict size; run in builds with and without debug assertions, tracing off; in a quarter of the cases on a solver that was used before for a sub-problem. Non-trivial: case combines >=2 of {hint, exclusion, lock, soft, self-ref, Unknown, missing, union, favored} and is unsat or has >= 4 solvables in the solution. Distinct = distinct hash of case.");
 
 // =============================================================================== C05
 
